@@ -30,7 +30,7 @@ RULE = (
 ASSUMPTIONS = ["each data variable is encoded by a single factor expression (as the property requires)"]
 
 CONTRASTS = [None, None, "", "contr.treatment", "contr.SAS", "contr.sum", "contr.helmert", "contr.helmert(reverse=False)",
-             "contr.helmert(scale=True)", "contr.diff", "contr.diff(backward=False)", "contr.poly", "BASE", "ONEHOT"]
+             "contr.helmert(scale=True)", "contr.diff", "contr.diff(backward=False)", "contr.poly", "BASE", "ONEHOT", "LEVELS", "LEVELS_SUM"]
 
 
 def onehot(values):
@@ -68,6 +68,10 @@ def build_case(rng, ncat, nnum, levels, terms_idx=None, exhaustive=False):
             fexpr[c] = f"C({c})"
         elif k == "ONEHOT":
             fexpr[c] = f"onehot({c})"
+        elif k == "LEVELS":  # the level list written out (here: every level, in declared order)
+            fexpr[c] = f"C({c}, levels={lv[c]!r})"
+        elif k == "LEVELS_SUM":
+            fexpr[c] = f"C({c}, contr.sum, levels={lv[c]!r})"
         elif k == "BASE":
             fexpr[c] = f"C({c}, contr.treatment(base='{rng.choice(lv[c])}'))"
         else:
